@@ -41,7 +41,7 @@ ASSUMPTIONS = [
     'cached pixel_array and ImageFileReader need the attribute (C06 / pydicom) and are exercised with it present; 64-bit cells are read '
     'through get_stored_frame(s), the cached pixel_array and ImageFileReader only (the pixel transform knows 8 / 16 / 32-bit integers: '
     'get_frame raises AttributeError input_dtype, C06); YBR_FULL '
-    'frames (open finding) and the segmentation writer (keyword dictionary, C01-C04) are not drawn',
+    'frames (open finding) are not drawn; the segmentation writer is tied by T13g only (its objects are C01-C04\'s)',
 ]
 MODELLED_NOT_VERIFIED = ['pydicom RLE encoder/decoder', 'pyjpegls (JPEG-LS) codec', 'pydicom pack_bits / unpack_bits',
                          'pydicom native pixel data decoder (length check, unused-bit correction, YBR->RGB)',
